@@ -21,7 +21,7 @@ class IsEnum(Validator):
                 enum_value = self._enum(int(value))
             else:
                 enum_value = self._enum(value)
-        except (ValueError, TypeError):
+        except (ValueError, TypeError, OverflowError):
             return self.raise_exception(msg=f'Incorrect value {value} for enum {self._enum}.', value=value)
 
         if self._convert:
